@@ -28,7 +28,10 @@ func VerifRestartChain() {
 	AveragePeriod = 3
 	AverageRequired = 1
 	ctx := context.Background()
-	base := uint32(295200)
+	// the chain lies in the current era, or its third block is the 2.0.2 activation block (274036):
+	// anything a daemon decides once per process from the height it first sees then differs between
+	// a daemon that lived through the activation and one started after it
+	base := []uint32{295200, 274033}[vrt.Choose("chainAt", 2)]
 	blockTime := time.Unix(1600000000, 0)
 	miner, staker := vrtAddr(0xA1), vrtAddr(0xB2)
 	converter := vrt.KeyAddress(0, false)
@@ -38,13 +41,19 @@ func VerifRestartChain() {
 	h1 := vrtSignedConversion(vrtHash(0x41), blockTime.Unix()+600, amt1, fat2.PTickerUSD, fat2.PTickerXBT, false)
 	h2 := vrtSignedConversion(vrtHash(0x42), blockTime.Unix()+1200, amt2, fat2.PTickerUSD, fat2.PTickerXBT, false)
 	te, _ := vrtMakeEntry(ekTransfer, vrtHash(0x43), blockTime.Unix()+1200, base+2, 300, B)
-	entriesAt := map[uint32][]factom.Entry{base + 1: {h1}, base + 2: {h2, te}}
+	// the last block also carries a transfer to the burn address (destroyed, not credited, from 2.0.2 on)
+	be, _ := vrtMakeEntry(ekTransfer, vrtHash(0x44), blockTime.Unix()+1800, base+3, 250, vrtMustAddr(specBurnAddr))
+	entriesAt := map[uint32][]factom.Entry{base + 1: {h1}, base + 2: {h2, te}, base + 3: {be}}
 	graded := map[uint32]bool{base + 1: true, base + 2: false, base + 3: true}
 	// the unrated block either has no OPR/SPR entry block at all, or has them without any winner
 	// (it is then recorded in pn_grade although it carries no rates)
 	emptyGraded := map[uint32]bool{base + 2: vrt.Choose("gapKind", 2) == 1}
 	rU := vrt.URange("rateUSD", 1, 1<<30)
 	rX := vrt.URange("rateXBT", 1, 1<<30)
+	if base != 295200 {
+		// before 2.0.2 the OPR/SPR tolerance band is float arithmetic (one path per binade): concrete rates
+		rU, rX = 100000000, 950000000000
+	}
 
 	setup := func(db *sql.DB) *Pegnetd {
 		d := vrtNodeOn(db)
